@@ -34,6 +34,7 @@ type Prog struct {
 	allFns []*ssa.Function           // every repo function with a body (incl. anonymous, incl. instantiations)
 	astFn  map[*ssa.Function]ast.Node
 	cg     *callgraph.Graph
+	ti     *transInfo
 }
 
 type toolError struct{ msg string }
@@ -150,6 +151,8 @@ func Load(c LoadConfig) *Prog {
 		walk(pk.Types)
 	}
 	p.index()
+	curProg = p
+	p.initTransparency()
 	return p
 }
 
@@ -211,6 +214,9 @@ func (p *Prog) index() {
 // An unresolved anchor is a tool error (undecided), never a verdict.
 func (p *Prog) Fn(name string) *ssa.Function {
 	f := p.fnIdx[name]
+	if f == nil {
+		f = p.lenientFn(name)
+	}
 	if f == nil {
 		fatalf("anchor function %q not found in %s", name, p.Cfg)
 	}
